@@ -169,7 +169,10 @@ def build(tests=False, verbose=False, src=None, extra_key=""):
                "wall_s": round(time.time() - t0, 2), "src": src}
         if src == REPO:
             for crate, kind in EXPECTED.items():
-                if kind not in files.get(crate, {}):
+                # with --tests cargo checks a library in test configuration only, unless another member
+                # depends on it: any fact file of the crate shows that the driver ran for it
+                have = files.get(crate, {})
+                if (kind not in have) if not tests else (not have):
                     shutil.rmtree(out, ignore_errors=True)
                     raise FactError(f"fact file for crate {crate} ({kind}) missing: the driver "
                                     "did not run for it (stale cargo cache?)")
